@@ -21,7 +21,34 @@ ROOT = os.path.dirname(os.path.dirname(os.path.abspath(__file__)))
 REPO = "/repo"
 REC = os.path.join(ROOT, "tools", "source_fingerprints.json")
 CORE = ["fpdec-core/src/lib.rs", "fpdec-core/src/rounding.rs", "fpdec-core/src/powers_of_ten.rs", "src/lib.rs"]
-SKIP_ITEMS = re.compile(r"^(pub )?mod verif_hooks\b|^use |^pub use |^extern crate |^mod \w+ ?;|^pub mod \w+ ?;")
+SKIP_ITEMS = re.compile(r"^(pub )?mod verif_hooks\b|^extern crate |^mod \w+ ?;|^pub mod \w+ ?;")
+USE_ITEM = re.compile(r"^(pub(\([a-z]+\))? )?use ")
+
+
+def expand_use(t):
+    """use a::{b, c::{d, e}};  ->  {a::b, a::c::d, a::c::e}  (so that regrouping or reordering imports changes nothing)"""
+    t = re.sub(r"^(pub(\([a-z]+\))? )?use ", "", t.strip().rstrip(";")).replace(" ", "")
+    def ex(prefix, body):
+        out, depth, cur = [], 0, ""
+        parts = []
+        for ch in body:
+            if ch == "{": depth += 1
+            if ch == "}": depth -= 1
+            if ch == "," and depth == 0:
+                parts.append(cur); cur = ""
+            else:
+                cur += ch
+        if cur: parts.append(cur)
+        for p_ in parts:
+            m = re.match(r"^(.*?)::\{(.*)\}$", p_)
+            if m:
+                out += ex(prefix + m.group(1) + "::", m.group(2))
+            elif p_.startswith("{") and p_.endswith("}"):
+                out += ex(prefix, p_[1:-1])
+            else:
+                out.append(prefix + p_)
+        return out
+    return ex("", t)
 
 
 def strip_comments(s):
@@ -87,6 +114,9 @@ def items(path):
         elif c == ";" and depth == 0:
             add_item(res, s[start:i + 1]); start = i + 1
         i += 1
+    uses = res.pop("\x00use", None)
+    if uses is not None:
+        res["use declarations"] = hashlib.sha1(" ".join(sorted(set(uses))).encode()).hexdigest()[:16]
     return res
 
 
@@ -110,6 +140,17 @@ def add_item(res, text):
     if any("fpdec_verif" in a for a in attrs):
         return
     if not t or SKIP_ITEMS.match(t):
+        return
+    if USE_ITEM.match(t):
+        # all imports of a file form one item: the set of imported paths decides which function a name refers to
+        if any("cfg" in a for a in attrs):
+            t = " ".join(attrs) + " " + t
+        paths = expand_use(t) if "cfg" not in t else [t]
+        # imports of types, traits and enum variants (capitalised last segment) cannot redirect a call; imports of
+        # functions, modules, macros, globs and renames can
+        keep = [q for q in paths if "cfg" in q or "as" in re.split(r"::", q)[-1] or q.endswith("*")
+                or not re.split(r"::", q)[-1][:1].isupper()]
+        res.setdefault("\x00use", []).extend(sorted(keep))
         return
     attrs = [a for a in attrs if not re.match(r"#\[(doc|inline|must_use|allow|cfg_attr\(docsrs)", a)]
     mm = re.match(r"macro_rules! ?(\w+)", t)
@@ -223,7 +264,7 @@ def changed_for(pid):
     out = []
     for f, rx in anchors()[pid]:
         ch, ad = diff_file(cur.get(f, {}), rec.get(f, {}))
-        out += ["%s :: %s" % (f, k) for k in ch if rx is None or re.search(rx, k)]
+        out += ["%s :: %s" % (f, k) for k in ch if rx is None or re.search(rx, k) or k == "use declarations"]
     return out
 
 
